@@ -24,10 +24,14 @@ def findings_table():
 
 def seeds_table():
     rows = ["| seeded change | breaks | what it needs to manifest | suite with patch | caught by (check → first failure kind) |", "|----|----|----|----|----|"]
-    for p in sorted(glob.glob(os.path.join(V, "seeded", "C*", "meta.json"))):
+    for p in sorted(glob.glob(os.path.join(V, "seeded", "C*", "meta.json")), key=lambda q: [int(x) for x in re.findall(r"\d+", os.path.basename(os.path.dirname(q)))]):
         m = json.load(open(p)); name = os.path.basename(os.path.dirname(p))
         caught = "; ".join(f"{c} → {r.get('first_failure_kind') or ('VIOLATION' if r.get('caught') else 'MISSED')}" + ("" if r.get("caught") else " (missed)") for c, r in sorted(m.get("checks", {}).items()))
-        rows.append(f"| {name} | {m.get('property')} | {(m.get('needs_to_manifest') or '').replace('|','/')} | {m.get('suite_with_patch',{}).get('passed')} passed | {caught} |")
+        needs = m.get('needs_to_manifest')
+        if not needs:
+            np_ = os.path.join(os.path.dirname(p), "notes.md")
+            needs = open(np_).read().strip().splitlines()[0].lstrip('# ')[:420] if os.path.exists(np_) else ''
+        rows.append(f"| {name} | {m.get('property')} | {needs.replace('|','/')} | {m.get('suite_with_patch',{}).get('passed')} passed | {caught} |")
     return "\n".join(rows)
 
 
